@@ -649,25 +649,12 @@ theorem spawn_wf (o : EpochOpts W) (g : Genome W) (rs rs' : List Nat) (p : Pop W
               rw [hreg]
               refine ⟨by intro i hi; simp at hi, ⟨?_, ?_⟩, ⟨by intro i hi; simp at hi, by intro i hi; simp at hi⟩⟩
               · intro x hx
-                unfold Genome.nextGeneInnov at hni
-                cases hl : g.genes.getLast? with
-                | none => rw [hl] at hni; cases hni
-                | some last =>
-                  rw [hl, hm] at hni
-                  simp only [List.getLast?_nil, Except.ok.injEq] at hni
-                  have := sorted_le_last g.genes hw.wf.genesSorted last hl x hx
-                  show x.inn ≤ nextInn - 1
-                  omega
+                -- (fix 48b1f99: the accessor takes the maximum over all genes)
+                exact g.nextGeneInnov_gt _ hni x hx
               · intro n hn
-                unfold Genome.lastNodeId at hln
-                cases hl : g.nodes.getLast? with
-                | none => rw [hl] at hln; cases hln
-                | some last =>
-                  rw [hl, hm] at hln
-                  simp only [List.foldl_nil, Except.ok.injEq] at hln
-                  have := nodes_le_last g.nodes hw.wf.nodesSorted last hl n hn
-                  show n.id ≤ lastNode + 1
-                  omega
+                have := g.lastNodeId_ge _ hln n hn
+                show n.id ≤ lastNode + 1
+                omega
             intro x hx
             rcases horgs x hx with h' | h'
             · simp [allOrgs] at h'
@@ -1541,25 +1528,12 @@ theorem spawn_poolOk (o : EpochOpts W) (g : Genome W) (rs rs' : List Nat) (p : P
                 rw [(speciate_orgs o _ _ _ hsp).2]
                 refine ⟨by intro i hi; simp at hi, ⟨?_, ?_⟩, ⟨by intro i hi; simp at hi, by intro i hi; simp at hi⟩⟩
                 · intro x hx
-                  unfold Genome.nextGeneInnov at hni
-                  cases hl : a.genes.getLast? with
-                  | none => rw [hl] at hni; cases hni
-                  | some last =>
-                    rw [hl, hm] at hni
-                    simp only [List.getLast?_nil, Except.ok.injEq] at hni
-                    have := sorted_le_last a.genes hw.wf.genesSorted last hl x hx
-                    show x.inn ≤ nextInn - 1
-                    omega
+                  -- (fix 48b1f99: the accessor takes the maximum over all genes)
+                  exact a.nextGeneInnov_gt _ hni x hx
                 · intro n hn
-                  unfold Genome.lastNodeId at hln
-                  cases hl : a.nodes.getLast? with
-                  | none => rw [hl] at hln; cases hln
-                  | some last =>
-                    rw [hl, hm] at hln
-                    simp only [List.foldl_nil, Except.ok.injEq] at hln
-                    have := nodes_le_last a.nodes hw.wf.nodesSorted last hl n hn
-                    show n.id ≤ lastNode + 1
-                    omega
+                  have := a.lastNodeId_ge _ hln n hn
+                  show n.id ≤ lastNode + 1
+                  omega
     · obtain ⟨sa, hsa, xa, hxa, rfl⟩ := mem_genomesOfPop.mp ha
       obtain ⟨wa, _, ska, ia⟩ := hall xa (mem_allOrgs.mpr ⟨sa, hsa, hxa⟩)
       exact ⟨wa, ska, ia⟩
